@@ -30,7 +30,7 @@ RULE = (
     "with at least one add followed by a lookup; distinct = the operation sequence."
 )
 ASSUMPTIONS = [
-    "the initial registry of a manager is read from a fresh manager's plugins() listing (entry-point order); the model takes over from there",
+    "the initial registry of a manager is read from another fresh manager's plugins() listing (entry-point order); the model takes over from there",
     "only the six valid plug-in types are generated; bare 'default' is not generated (the statement does not cover either)",
     "stub plug-ins support their methods in lower case; case-insensitivity is asserted for plug-in names, as the statement says",
 ]
@@ -38,7 +38,7 @@ COMPONENTS = {
     "real": ["PluginManager (add_plugin, get_plugin, is_supported, plugins, _from_entry_points cache)", "entry-point plug-ins incl. ExternalOptimizerPlugin"],
     "stub": ["4 stub plug-ins per type with overlapping method sets and discovery flags", "reference registry model"],
 }
-PROBES = ["lookup_repeated_after_add", "ops", "duplicate_rejected", "prioritized_add", "bare_lookup_found", "bare_lookup_skipped_undiscoverable", "named_lookup_found",
+PROBES = ["add_under_installed_name_first", "lookup_repeated_after_add", "ops", "duplicate_rejected", "prioritized_add", "bare_lookup_found", "bare_lookup_skipped_undiscoverable", "named_lookup_found",
           "lookup_failed", "wrong_case_name", "second_manager", "external_not_discovered", "listing_compared", "duplicate_after_prioritize"]
 TYPES = ["optimizer", "sampler", "realization_filter", "function_estimator", "plan_handler", "plan_step"]
 # universe: (base name, methods, allows_discovery)
@@ -79,6 +79,9 @@ def _sym_ops(ptype: str):
     for i in range(4):
         ops.append({"op": "add", "m": 0, "type": ptype, "plugin": i, "name": UNIVERSE[i][0], "prio": False})
         ops.append({"op": "add", "m": 0, "type": ptype, "plugin": i, "name": UNIVERSE[i][0].upper(), "prio": True})
+    # registration under the name of an installed plug-in (a duplicate for the types that have one of that name)
+    ops.append({"op": "add", "m": 0, "type": ptype, "plugin": 0, "name": "SciPy", "prio": True})
+    ops.append({"op": "add", "m": 0, "type": ptype, "plugin": 1, "name": "Default", "prio": True})
     for meth in ("m1", "m3", "m4", "slsqp"):
         ops.append({"op": "get", "m": 0, "type": ptype, "method": meth})
     for nm in ("alpha", "GAMMA", "delta", "scipy", "external", "default"):
@@ -118,7 +121,8 @@ def generate(seed: int, index: int, tier: str) -> dict:
             managers += 1
         elif c < 0.4:
             i = rng.randrange(4)
-            ops.append({"op": "add", "m": m, "type": ptype, "plugin": i, "name": _case(rng, UNIVERSE[i][0]), "prio": rng.random() < 0.4})
+            nm = UNIVERSE[i][0] if rng.random() < 0.85 else rng.choice(["scipy", "default", "external"])
+            ops.append({"op": "add", "m": m, "type": ptype, "plugin": i, "name": _case(rng, nm), "prio": rng.random() < 0.4})
         elif c < 0.7:
             if rng.random() < 0.5:
                 meth = rng.choice(METHODS)
@@ -181,7 +185,9 @@ def execute(scn: dict) -> dict:
     def new_manager():
         pm = PluginManager()
         managers.append(pm)
-        models.append(Model({t: list(pm.plugins(t)) for t in TYPES}))
+        # the initial registry is read from a *different* fresh manager: the manager under test is not touched before
+        # the first operation of the history reaches it
+        models.append(Model({t: list(PluginManager().plugins(t)) for t in TYPES}))
 
     new_manager()
     log = []
@@ -228,6 +234,8 @@ def execute(scn: dict) -> dict:
                 prioritized_names.add((m, t, op["name"].lower()))
             if want == "ConfigError":
                 probe("duplicate_rejected")
+                if i == 0 and op["name"].lower() in ("scipy", "default", "external"):
+                    probe("add_under_installed_name_first")
                 if (m, t, op["name"].lower()) in prioritized_names:
                     probe("duplicate_after_prioritize")
             if got != want:
@@ -292,7 +300,12 @@ def execute(scn: dict) -> dict:
         # cross-invariant after every operation: every manager lists exactly the reference registry
         for k, (pmk, mdk) in enumerate(zip(managers, models)):
             for tt in TYPES:
-                listing = list(pmk.plugins(tt))
+                try:
+                    listing = list(pmk.plugins(tt))
+                except Exception as e:  # noqa: BLE001
+                    viol.append({"clause": "listing-raised", "sig": {"what": type(e).__name__},
+                                 "detail": f"after {where}: plugins({tt!r}) of manager {k} raised {type(e).__name__}: {e}"})
+                    break
                 probe("listing_compared")
                 if [(n, id(p)) for n, p in listing] != [(n, id(p)) for n, p in mdk.reg[tt]]:
                     viol.append({"clause": "registry-differs-from-reference", "sig": {"other_manager": k != m},
